@@ -871,6 +871,25 @@ def oracle_cases(ctx, deep):
                 cases.append({'decoder': 'XCubeMatchingDecoder', 'code': 'XCubeCode', 'size': list(size),
                               'direction': [0.25, 0.25, 0.5], 'p': 0.125, 'errors': errs[ch:ch + 50],
                               'kind': 'xcube-long-side'})
+    # deep search only: 3-D lattices with a long side and pairwise different sides (every decoder that declares the
+    # class): indices past 8 / 10 along one axis, seams far from the origin, Lx/Ly/Lz told apart
+    if deep:
+        LARGE_3D = {'Toric3DCode': [(5, 2, 3), (2, 6, 3)], 'Planar3DCode': [(2, 5, 3), (6, 2, 2)],
+                    'RotatedPlanar3DCode': [(5, 4, 3), (3, 6, 2)], 'RotatedToric3DCode': [(4, 6, 2), (2, 4, 5)],
+                    'RhombicToricCode': [(2, 4, 6)], 'RhombicPlanarCode': [(2, 5, 3)],
+                    'HollowPlanar3DCode': [(5, 3, 4)], 'Color3DCode': [(2, 2, 4)]}
+        for dname, cname in allowed_pairs():
+            if dname in ('MemoryBeliefPropagationDecoder', 'XCubeMatchingDecoder') or cname not in LARGE_3D:
+                continue
+            for size in LARGE_3D[cname]:
+                code = make_code(cname, size)
+                em = make_noise((0.25, 0.25, 0.5))
+                errs = [supports(e, code.n) for e in random_errors(code, em, rng, 16, rates=(0.01, 0.03, 0.06))]
+                errs += [[[int(q)], []] for q in rng.choice(code.n, 12, replace=False)]
+                errs += [[[], [int(q)]] for q in rng.choice(code.n, 12, replace=False)]
+                kw = {'max_bp_iter': 10, 'osd_order': 0} if dname == 'BeliefPropagationOSDDecoder' else None
+                cases.append({'decoder': dname, 'code': cname, 'size': list(size), 'direction': [0.25, 0.25, 0.5],
+                              'p': 0.0625, 'kwargs': kw, 'errors': errs, 'kind': 'large-3d'})
     # all decoders x allowed codes
     for dname, cname in allowed_pairs():
         slow = dname in ('MemoryBeliefPropagationDecoder', 'XCubeMatchingDecoder')
